@@ -112,6 +112,66 @@ theorem fromAttrs_fields (verb code payload a0 a1 a2 : List Char) (f : Frame)
         exact ⟨rfl, rfl, rfl, rfl, hfd⟩
 
 
+/-- ... and its first address field is the first nine characters of the joined addresses -/
+theorem fromAttrs_a0 (verb code payload a0 a1 a2 : List Char) (f : Frame)
+    (hv : verb.length = 2) (hc : code.length = 4) (hp : payload.length / 2 < 1000)
+    (h : fromAttrs verb code payload a0 a1 a2 none = .ok f) :
+    f.a0 = slice ((if a0 = [] then nonId else a0) ++ ' ' :: (if a1 = [] then nonId else a1) ++ ' ' ::
+      (if a2 = [] then nonId else a2)) 0 9 := by
+  unfold fromAttrs at h
+  have nv1 : ¬ (verb = ['I']) := by intro e; rw [e] at hv; simp at hv
+  have nv2 : ¬ (verb = ['W']) := by intro e; rw [e] at hv; simp at hv
+  simp only [nv1, nv2, if_false] at h
+  split at h
+  · cases h
+  · rename_i r hr
+    -- the three address slices are valid, hence 9 characters each
+    have hval : ∃ b0 b1 b2, pktAddrs b0 b1 b2 = .ok r := ⟨_, _, _, hr⟩
+    generalize hb0 : slice ((if a0 = [] then nonId else a0) ++ ' ' :: (if a1 = [] then nonId else a1) ++ ' ' ::
+      (if a2 = [] then nonId else a2)) 0 9 = b0 at h hr
+    generalize hb1 : slice ((if a0 = [] then nonId else a0) ++ ' ' :: (if a1 = [] then nonId else a1) ++ ' ' ::
+      (if a2 = [] then nonId else a2)) 10 19 = b1 at h hr
+    generalize hb2 : slice ((if a0 = [] then nonId else a0) ++ ' ' :: (if a1 = [] then nonId else a1) ++ ' ' ::
+      (if a2 = [] then nonId else a2)) 20 29 = b2 at h hr
+    have hlens : b0.length = 9 ∧ b1.length = 9 ∧ b2.length = 9 := by
+      unfold pktAddrs at hr
+      split at hr
+      · cases hr
+      · rename_i hv3
+        have this : (isValidAddr b0 && isValidAddr b1 && isValidAddr b2) = true := by
+          cases hh : (isValidAddr b0 && isValidAddr b1 && isValidAddr b2)
+          · exact absurd (by simp [hh]) hv3
+          · rfl
+        simp only [Bool.and_eq_true] at this
+        exact ⟨validAddr_len _ this.1.1, validAddr_len _ this.1.2, validAddr_len _ this.2⟩
+    let g : Frame := ⟨verb, "---".toList, b0, b1, b2, code, fmtDec3 (payload.length / 2), payload⟩
+    have hfd : fmtDec3 (payload.length / 2) = toDecW 3 (payload.length / 2) := by
+      unfold fmtDec3; rw [if_pos hp]
+    have hg : (verb ++ ' ' :: "---".toList ++ ' ' :: b0 ++ ' ' :: b1 ++ ' ' :: b2 ++ ' ' :: code ++ ' ' ::
+        fmtDec3 (payload.length / 2) ++ ' ' :: payload) = printFrame g := rfl
+    rw [hg] at h
+    unfold parseCommand at h
+    split at h
+    · cases h
+    · rename_i f' hf'
+      split at h
+      · cases h
+      · injection h with h
+        subst h
+        have hcore := C02.accepted_core _ _ hf'
+        have hfields : frameFields (printFrame g) = g :=
+          (C02.fields_of_print g hv rfl hlens.1 hlens.2.1 hlens.2.2 hc (by rw [show g.len = fmtDec3 _ from rfl, hfd]; simp [toDecW])).1
+        have : f' = g := by
+          unfold parseFrame at hf'
+          split at hf'; · cases hf'
+          split at hf'; · cases hf'
+          split at hf'; · cases hf'
+          injection hf' with hf'
+          rw [← hf', hfields]
+        subst this
+        rfl
+
+
 theorem fromAttrsDest_fields (verb dest code payload : List Char) (f : Frame)
     (hv : verb.length = 2) (hc : code.length = 4) (hp : payload.length / 2 < 1000)
     (h : fromAttrsDest verb dest code payload = .ok f) :
@@ -119,6 +179,28 @@ theorem fromAttrsDest_fields (verb dest code payload : List Char) (f : Frame)
     f.len = toDecW 3 (payload.length / 2) := by
   unfold fromAttrsDest at h
   split at h <;> exact fromAttrs_fields _ _ _ _ _ _ f hv hc hp h
+
+
+/-- a command built by `from_attrs(verb, dest, code, payload)` is sent from the gateway placeholder 18:000730 -/
+theorem fromAttrsDest_srcType (verb dest code payload : List Char) (f : Frame)
+    (hv : verb.length = 2) (hc : code.length = 4) (hp : payload.length / 2 < 1000)
+    (h : fromAttrsDest verb dest code payload = .ok f) : f.a0 = hgiId := by
+  unfold fromAttrsDest at h
+  split at h
+  · have := fromAttrs_a0 _ _ _ _ _ _ f hv hc hp h
+    rw [this]
+    have e : (if hgiId = [] then nonId else hgiId) = hgiId := by decide
+    rw [e]
+    unfold slice
+    have hl : hgiId.length = 9 := by decide
+    rw [List.append_assoc, List.take_left' hl]; rfl
+  · have := fromAttrs_a0 _ _ _ _ _ _ f hv hc hp h
+    rw [this]
+    have e : (if hgiId = [] then nonId else hgiId) = hgiId := by decide
+    rw [e]
+    unfold slice
+    have hl : hgiId.length = 9 := by decide
+    rw [List.append_assoc, List.take_left' hl]; rfl
 
 /-! ### key: every modelled constructor builds the verb/code it is registered under -/
 
